@@ -102,8 +102,10 @@ def _pred(run, P):
                     and any(dotted(t) == pname for t in s.targets)]
             body = None
             arg = None
-            if defs and len(defs[0].body) == 1 and isinstance(defs[0].body[0], ast.Return):
-                body = defs[0].body[0].value
+            from .util import nodoc
+            if defs and len(nodoc(defs[0].body)) == 1 \
+                    and isinstance(nodoc(defs[0].body)[0], ast.Return):
+                body = nodoc(defs[0].body)[0].value
                 arg = defs[0].args.args[0].arg
             elif lams:
                 body = lams[0].value.body
